@@ -6,7 +6,7 @@ def run(ctx):
     quick = ctx.tier == "quick"
     core.design_check(ctx, "Rewrite_Cfgs.tla", "Rewrite_MC.cfg", timeout=1500)
     reps = core.generate(ctx, "Gen_Rewrite.tla", "Gen_Rewrite_3.cfg" if quick else "Gen_Rewrite_5.cfg", 0, 0, ctx.seed, bfs=True, timeout=2500)
-    ctx.say("  representations: %d (every representation reachable from 13 base configurations by up to %d composed rewrites)" % (len(reps), 3 if quick else 5))
+    ctx.say("  representations: %d (every representation reachable from 14 base configurations by up to %d composed rewrites)" % (len(reps), 3 if quick else 5))
     hb = core.build_harness(ctx)
     trace, summ = core.run_harness(ctx, hb, "rewrite", reps, "rewrite", timeout=1500)
     for inc in summ["incidents"]:
@@ -20,7 +20,7 @@ def run(ctx):
         core.report(ctx, {"check": "Mon_Rewrite", "invariant": x["invariant"], "config": ev["cid"], "rewrites": sorted({r["rw"] for r in ev["rws"]}), "failing": bad},
                     {"texts": ev["texts"], "res": ev["res"], "rws": ev["rws"]})
     core.write_evidence(ctx, "model_checking",
-        rule="representations = every distinct (files x syntax x layout x items) reachable from each of 13 base configurations (7 valid, 6 invalid: required attribute missing in a block and at top level, wrong type, repeated single block, unknown attribute, unterminated template directive) by up to N composed rewrites (other syntax, item split into a new file, files merged, blocks replaced by a dynamic block and back, attributes reordered at top level and inside blocks, layout / comments / formatter); each rendered to files, parsed by the native or JSON parser, merged with MergeBodies, expanded with dynblock.Expand (before or after merging), decoded by hcldec.Decode and by gohcl.DecodeBody; non-trivial = representations",
+        rule="representations = every distinct (files x syntax x layout x items) reachable from each of 14 base configurations (8 valid, 6 invalid: required attribute missing in a block and at top level, wrong type, repeated single block, unknown attribute, unterminated template directive) by up to N composed rewrites (other syntax, item split into a new file, files merged, blocks replaced by a dynamic block and back, attributes reordered at top level and inside blocks, layout / comments / formatter); each rendered to files, parsed by the native or JSON parser, merged with MergeBodies, expanded with dynblock.Expand (before or after merging), decoded by hcldec.Decode and by gohcl.DecodeBody; non-trivial = representations",
         samples=summ["samples"], evaluations=summ["behaviours"], distinct_nontrivial=len(reps), exhaustive=True,
         extra={"counters": summ["counters"], "max_rewrites": 3 if quick else 5},
         assumptions=["one fixed schema (five attribute kinds, a repeated labelled block with an optional attribute and a nested single block, a single block with a required attribute); schemas are not generated",
